@@ -836,8 +836,11 @@ def regex_substr(expression: exp.Expression) -> exp.Expression:
             this=exp.Anonymous(
                 this="regexp_extract_all",
                 expressions=[
-                    # slice subject from position onwards
-                    exp.Bracket(this=subject, expressions=[exp.Slice(this=position)]),
+                    # slice subject from position onwards (parenthesised, so the slice applies to the whole of an operator expression)
+                    exp.Bracket(
+                        this=exp.Paren(this=subject) if isinstance(subject, exp.Binary) else subject,
+                        expressions=[exp.Slice(this=position)],
+                    ),
                     pattern,
                     group_num,
                     regex_parameters,
